@@ -2,6 +2,7 @@
 """selftest.py PROP - checker self-tests of the thorough tier, all run on overlays (never touching /repo):
   * every stored behaviour-preserving refactoring of PROP's code (refactors/PROP-*.diff) must leave ALL of PROP's
     rules silent (a failing obligation is a false alarm of the machinery);
+  * every stored near miss of a correct new form (negvariants/PROP-*.diff) must be reported by PROP's check;
   * every stored seeded change of PROP (seeded/PROP*/patch.diff or patch.rebased.diff) that applies to the current
     tree must be reported by PROP's check, unless meta.json declares it out of reach.
 Prints JSON; exit status 0 always (the caller records failures as checker-integrity failures)."""
@@ -9,7 +10,7 @@ import glob, json, os, sys
 sys.path.insert(0, os.path.dirname(os.path.abspath(__file__)))
 import patchrun
 prop = sys.argv[1]
-res = {"refactorings": {"silent": 0, "alarmed": [], "stale": 0}, "seeded": {"caught": 0, "missed": [], "declared_out_of_reach": [], "stale": 0}}
+res = {"refactorings": {"silent": 0, "alarmed": [], "stale": 0}, "near_misses": {"fired": 0, "silent": [], "stale": 0}, "seeded": {"caught": 0, "missed": [], "declared_out_of_reach": [], "stale": 0}}
 for p in sorted(glob.glob("/verif/refactors/%s-*.diff" % prop)):
     st, out = patchrun.run(p, [prop])
     if st != "ok":
@@ -18,6 +19,14 @@ for p in sorted(glob.glob("/verif/refactors/%s-*.diff" % prop)):
         res["refactorings"]["alarmed"].append({"patch": os.path.basename(p), "first": out[prop][0][:300]})
     else:
         res["refactorings"]["silent"] += 1
+for p in sorted(glob.glob("/verif/negvariants/%s-*.diff" % prop)):
+    st, out = patchrun.run(p, [prop])
+    if st != "ok":
+        res["near_misses"]["stale"] += 1
+    elif out[prop]:
+        res["near_misses"]["fired"] += 1
+    else:
+        res["near_misses"]["silent"].append(os.path.basename(p))
 for d in sorted(glob.glob("/verif/seeded/%s*" % prop)):
     meta = json.load(open(os.path.join(d, "meta.json")))
     st, out = "does-not-apply", {}
